@@ -118,6 +118,12 @@ func features(toks []token) map[string]int {
 			if t.s == "catch" && isPunct(at(i+1), "{") {
 				f["optional-catch-binding"] = 2019
 			}
+			if (t.s == "let" || t.s == "const" || t.s == "class" || t.s == "yield" || t.s == "of" || t.s == "super") && !isPunct(at(i-1), ".") && !isPunct(at(i+1), ":") {
+				f["es2015-declarations"] = 2015
+			}
+			if (t.s == "var" || t.s == "let" || t.s == "const") && (isPunct(at(i+1), "{") || isPunct(at(i+1), "[")) {
+				f["destructuring"] = 2015
+			}
 			// shorthand property / destructuring: {a} {a,b} {x:1,a}
 			if !isPunct(at(i-1), ".") && !isPunct(at(i-1), "?.") && (isPunct(at(i-1), "{") || isPunct(at(i-1), ",")) && (isPunct(at(i+1), ",") || isPunct(at(i+1), "}")) && (!jsKeywords[t.s] || t.s == "async" || t.s == "get" || t.s == "set" || t.s == "of" || t.s == "static" || t.s == "let") {
 				// find the enclosing brace
@@ -128,7 +134,8 @@ func features(toks []token) map[string]int {
 						depth++
 					} else if u.k == tPunct && (u.s == "(" || u.s == "[" || u.s == "{") || u.k == tTemplate && u.tmpl == 1 {
 						if depth == 0 {
-							if u.k == tPunct && u.s == "{" && objectBracePrev(at(k-1)) && objectLikeStart(at(k+1), at(k+2)) {
+							if u.k == tPunct && u.s == "{" && objectBracePrev(at(k-1)) && objectLikeStart(at(k+1), at(k+2)) &&
+								!(isPunct(at(k-1), ":") && !(isPunct(at(k-3), "{") || isPunct(at(k-3), ","))) {
 								f["shorthand-property"] = 2015
 							}
 							break
@@ -207,6 +214,7 @@ func labelSeq(toks []token) string {
 			b = append(b, t.s)
 		}
 	}
+	sort.Strings(b) // branches may legitimately be swapped: compare as a multiset
 	return strings.Join(b, " ")
 }
 
@@ -316,8 +324,12 @@ func (ev *evaluator) evalProgram(input string, probes []string, cfgs []config) [
 		if c.Version != 0 {
 			outFeat := features(outToks)
 			var bad []string
+			inputIsES5 := len(inFeat) == 0
 			for f, year := range outFeat {
 				if year > c.Version && inFeat[f] == 0 {
+					if (f == "shorthand-property" || f == "destructuring" || f == "es2015-declarations") && !inputIsES5 {
+						continue // heuristic detection: only trusted when the input is plain ES5
+					}
 					bad = append(bad, f)
 				}
 			}
